@@ -3,6 +3,7 @@ import PdfModel.Model.Storage
 import PdfModel.Drv.C02
 import PdfModel.Drv.Obj
 import PdfModel.Model.SaveBytes
+import PdfModel.Model.OpenBytes
 
 /-! Line-protocol handler for the C09 streams.
 
@@ -21,6 +22,9 @@ import PdfModel.Model.SaveBytes
      the /ID strings (`~`-separated, `-`: none) as values in the notation of Drv/Obj.lean, and a history
      `c=<val>` `u=<id>=<val>` `p` `f=<id>=<val>` `s` (`;`-separated) with full values: `save` is the byte
      model `SaveBytes.saveB`; the answer of a save is `ok/<hex of the bytes it appended>`
+  c09.open <hex>              the byte-level open path (`OpenBytes.openB`: header, startxref, section readers for
+                              tables and streams, /Prev walk, merge) on a whole file
+                              → `ok <start> <size> <prev|n> <entries>` | `err` | `panic`
   c09.bytelen <n>             → byteLen n
   c09.rowbytes <aw> <bw> <e>  → the bytes `write_stream` emits for entry e
 -/
@@ -200,6 +204,20 @@ def handle (args : List String) : String :=
         joinWith ";" (runB ⟨d, ids, []⟩ ops [])
       | o => s!"load-{o.tag}"
     | _, _, _, _, _, _, _, _ => "bad-request"
+  | ["c09.open", file] =>
+    match bytesOfHex file with
+    | some bs =>
+      let env : PdfLex.Env (List UInt8) :=
+        { parseReal := fun t => some t, resolveLen := fun _ _ => .err, allowMissingEndobj := false, decrypt := none, fileOffset := 0 }
+      let dec : PdfLex.Dict (List UInt8) → List UInt8 → Out (List UInt8) :=
+        fun d raw => match PdfLex.dictGet d OpenBytes.kFilter with | none => .ok raw | some _ => .err
+      match OpenBytes.openB env (3 * bs.length + 64) dec 64 bs with
+      | .ok (start, t, tr) =>
+        let size := match XrefTable.trailerSize tr with | .ok n => toString n | _ => "?"
+        let prev := match XrefTable.trailerPrev tr with | none => "n" | some (.ok p) => toString p | some _ => "?"
+        s!"ok {start} {size} {prev} {joinWith "," (t.map DrvC02.showEntry)}"
+      | o => o.tag
+    | none => "bad-request"
   | ["c09.bytelen", n] =>
     match natOf n with
     | some n => toString (byteLen n)
